@@ -31,15 +31,25 @@ theorem validFrom_elementwise (m : Nat) (hm : 1 ≤ m) : ∀ (cps : List Nat) (s
 
 /-- **C04, PELT**: the changepoints are strictly increasing integers in `[m, n - m] ⊆ [1, n-1]`
     and leave every segment, including the first and last, at least `m` long. -/
+theorem peltG_changepoints_wellformed {α : Type} [AddCommGroup α] [LinearOrder α]
+    [IsOrderedAddMonoid α] (pick : (Nat → α) → List Nat → Nat) (pr : α → α → Bool)
+    (hpick : SoundPick pick) (hpr : SoundPrune pr) (cost : Nat → Nat → α) (pen : α) (m delay n : Nat)
+    (hm : 1 ≤ m) (hd : m ≤ delay + 1) (hn : 2 * m ≤ n) (hsplit : SplitIneq cost m n) :
+    let cps := (runPelt pick pr cost pen m delay n).2
+    cps.Pairwise (fun a b => a + m ≤ b) ∧ ∀ c ∈ cps, m ≤ c ∧ c + m ≤ n := by
+  intro cps
+  have h := (pelt_optimal pick pr hpick hpr cost pen m delay n hm hd hn hsplit).1
+  have := validFrom_elementwise m hm cps 0 n h
+  simpa using this
+
+/-- the code's policy (first minimiser, strict pruning test, delay `m − 1`) -/
 theorem pelt_changepoints_wellformed {α : Type} [AddCommGroup α] [LinearOrder α]
     [IsOrderedAddMonoid α] (cost : Nat → Nat → α) (pen : α) (m n : Nat)
     (hm : 1 ≤ m) (hn : 2 * m ≤ n) (hsplit : SplitIneq cost m n) :
     let cps := (runPeltCode cost pen m n).2
-    cps.Pairwise (fun a b => a + m ≤ b) ∧ ∀ c ∈ cps, m ≤ c ∧ c + m ≤ n := by
-  intro cps
-  have h := (peltCode_optimal cost pen m n hm hn hsplit).1
-  have := validFrom_elementwise m hm cps 0 n h
-  simpa using this
+    cps.Pairwise (fun a b => a + m ≤ b) ∧ ∀ c ∈ cps, m ≤ c ∧ c + m ≤ n :=
+  peltG_changepoints_wellformed argminL prStrict soundPick_argminL soundPrune_strict cost pen m (m - 1) n
+    hm (by omega) hn hsplit
 
 /-! ### CAPA / MVCAPA -/
 
@@ -68,20 +78,31 @@ theorem validAnoms_elementwise (m M : Nat) : ∀ (l : List (Nat × Nat)) (lo hi 
 
 /-- **C04, CAPA / MVCAPA**: anomalies are sorted, pairwise disjoint, non-empty intervals inside
     `[0, n]`; collective anomalies have length in `[m, M]`, point anomalies length 1. -/
-theorem capa_anomalies_wellformed {α : Type} [AddCommGroup α] [LinearOrder α]
-    [IsOrderedAddMonoid α] (PS : Nat → Nat → α) (PP : Nat → α) (K : α) (m M delay n : Nat)
+theorem capaG_anomalies_wellformed {α : Type} [AddCommGroup α] [LinearOrder α]
+    [IsOrderedAddMonoid α] (pick : (Nat → α) → List Nat → Nat) (pr : α → α → Bool)
+    (hpick : SoundPickMax pick) (hpr : SoundPruneC pr)
+    (PS : Nat → Nat → α) (PP : Nat → α) (K : α) (m M delay n : Nat)
     (hm : 2 ≤ m) (hmM : m ≤ M) (hd : m ≤ delay + 1) (H : PruneIneq PS K m M n) :
-    let an := (runCapa PS PP K m M delay n).2
+    let an := (runCapaG pick pr PS PP K m M delay n).2
     an.Pairwise (fun a b => a.2 ≤ b.1) ∧
     ∀ a ∈ an, a.2 ≤ n ∧ a.1 < a.2 ∧ (a.2 = a.1 + 1 ∨ (a.1 + m ≤ a.2 ∧ a.2 ≤ a.1 + M)) := by
   intro an
-  have h := (capa_optimal PS PP K m M delay n hm hmM hd H).1
+  have h := (capaG_optimal pick pr hpick hpr PS PP K m M delay n hm hmM hd H).1
   obtain ⟨h1, h2⟩ := validAnoms_elementwise m M an 0 n h
   refine ⟨h1, ?_⟩
   intro a ha
   obtain ⟨_, g2, g3⟩ := h2 a ha
   refine ⟨g2, ?_, g3⟩
   rcases g3 with g3 | g3 <;> omega
+
+/-- the code's policy (first maximiser, strict pruning test) -/
+theorem capa_anomalies_wellformed {α : Type} [AddCommGroup α] [LinearOrder α]
+    [IsOrderedAddMonoid α] (PS : Nat → Nat → α) (PP : Nat → α) (K : α) (m M delay n : Nat)
+    (hm : 2 ≤ m) (hmM : m ≤ M) (hd : m ≤ delay + 1) (H : PruneIneq PS K m M n) :
+    let an := (runCapa PS PP K m M delay n).2
+    an.Pairwise (fun a b => a.2 ≤ b.1) ∧
+    ∀ a ∈ an, a.2 ≤ n ∧ a.1 < a.2 ∧ (a.2 = a.1 + 1 ∨ (a.1 + m ≤ a.2 ∧ a.2 ≤ a.1 + M)) :=
+  capaG_anomalies_wellformed argmaxL prLt soundPickMax_argmaxL soundPruneC_lt PS PP K m M delay n hm hmM hd H
 
 /-! ### Seeded binary segmentation -/
 
